@@ -64,6 +64,26 @@ def sample_archives(py7zr, R, tier):
     z.close()
     raw = bio.getvalue()
     out.append(("py7zr:copy+aes:enchdr:1folders", raw, "pw", regions_of(raw, "pw")))
+    # ---- a symbolic-link member (its content is the link's target): extraction into a directory re-creates the link from it
+    import tempfile, shutil
+    td = tempfile.mkdtemp(prefix="c04ln-")
+    try:
+        os.makedirs(os.path.join(td, "t", "sub"))
+        with open(os.path.join(td, "t", "sub", "target_file.txt"), "wb") as f:
+            f.write(b"the file the link points to\n" * 3)
+        os.symlink("sub/target_file.txt", os.path.join(td, "t", "link-to-it"))
+        bio = io.BytesIO()
+        cwd = os.getcwd()
+        os.chdir(td)
+        try:
+            with py7zr.SevenZipFile(bio, "w", filters=[{"id": 0x33}]) as z:
+                z.writeall("t")
+        finally:
+            os.chdir(cwd)
+        raw = bio.getvalue()
+        out.append(("py7zr:copy:symlink:todir:1folders", raw, None, regions_of(raw, None)))
+    finally:
+        shutil.rmtree(td, ignore_errors=True)
     # ---- members whose CRC-32 is 0x00000000 / 0xFFFFFFFF (a defined CRC of 0 is not "no CRC"); stored, so only the CRC can notice
     for k, (name, filt) in enumerate([("copy", [{"id": 0x33}]), ("lzma2", [{"id": 0x21, "preset": 1}])] if tier != "quick" else [("copy", [{"id": 0x33}])]):
         bio = io.BytesIO()
@@ -228,6 +248,26 @@ def probe(case):
         ev["missing"] = len([n for n in data0 if n not in got])
 
     run("extractall", full)
+    if len(case) > 7 and case[7]:
+        # into a directory: regular files by their bytes, symbolic links by their targets (a link member's content IS its target)
+        import shutil
+        import tempfile
+
+        def full_dir(z, ev):
+            od = tempfile.mkdtemp(prefix="c04d-", dir="/dev/shm" if os.path.isdir("/dev/shm") else None)
+            try:
+                z.extractall(od)
+                got = {}
+                for n in z.getnames():
+                    p = os.path.join(od, n)
+                    if os.path.islink(p):
+                        got[n] = os.readlink(p).encode("utf-8", "surrogateescape")
+                    elif os.path.isfile(p):
+                        got[n] = open(p, "rb").read()
+                ev["outcome"] = judge(None, got)
+            finally:
+                shutil.rmtree(od, ignore_errors=True)
+        run("extractall", full_dir)
     if bypath and len(case) > 6 and case[6]:
         # the same through worker PROCESSES (mp=True), into a directory: an error met by a child must reach the caller as well
         import shutil
